@@ -233,14 +233,14 @@ DESIGN_CFG = {
     "MCApi": ("MCApi", "SPECIFICATION ApiSpec\nCONSTANT MaxLen = 3\nINVARIANT Deterministic\nPROPERTY Pure\nCHECK_DEADLOCK FALSE\n", 8),
     "MCCli": ("MCCli", "SPECIFICATION Spec\nINVARIANT AgreesWithFunction ExitRange\nCHECK_DEADLOCK FALSE\n", 8),
     "MCV1": ("MCV1", "INIT Init\nNEXT Next\nINVARIANT RoundTrip1 Empty1 Rfc6902\nCHECK_DEADLOCK FALSE\n", 16),
-    "MCPatch-list": _mcpatch("list"), "MCPatch-nest": _mcpatch("nest"), "MCPatch-obj": _mcpatch("obj"), "MCPatch-keyed": _mcpatch("keyed"),
+    "MCPatch-list4": _mcpatch("list4"), "MCPatch-list": _mcpatch("list"), "MCPatch-nest": _mcpatch("nest"), "MCPatch-obj": _mcpatch("obj"), "MCPatch-keyed": _mcpatch("keyed"),
 }
 
 # thorough tier: a large plan is driven and judged in chunks, one TLC run of at most ~150 k sessions each
 CHUNKS = {("C01", "dp"): 8, ("C05", "dp"): 8, ("C06", "dp"): 4, ("C07", "dp"): 8, ("C03", "pt"): 6, ("C08", "pt"): 6, ("C04", "eq"): 4,
           ("C02", "tx"): 4, ("C09", "jp"): 3, ("C10", "jp"): 6, ("C11", "mg"): 3, ("C17", "v1"): 8, ("C18", "v1"): 3}
 
-THOROUGH_EXTRA = {p: ["MCPatch-list", "MCPatch-nest", "MCPatch-obj", "MCPatch-keyed"] for p in ("C01", "C03", "C05", "C06", "C07", "C08")}
+THOROUGH_EXTRA = {p: ["MCPatch-list", "MCPatch-list4", "MCPatch-nest", "MCPatch-obj", "MCPatch-keyed"] for p in ("C01", "C03", "C05", "C06", "C07", "C08")}
 
 CHECKS = {
     "C01": dict(stages=[Stage("dp", "TraceDP", plan_dp)], design=["ListDiff", "MCPatch-list", "MCPatch-obj"],
